@@ -8,6 +8,7 @@ from pygradflow.implicit_func import ScaledImplicitFunc
 from pygradflow.iterate import Iterate
 from pygradflow.params import Params
 from pygradflow.problem import Problem
+from pygradflow.step.step_solver_error import StepSolverError
 
 from .step_solver import StepResult, StepSolver
 
@@ -94,7 +95,10 @@ class ScaledStepSolver(StepSolver):
         lamb = 1.0 / self.dt
         fact = 1.0 / (1.0 + lamb * rho)
 
-        assert fact > 0.0
+        if not (fact > 0.0):
+            # lamb * rho overflowed (the filter policies multiply the penalty by
+            # ten on every refusal): no step can be computed for this penalty
+            raise StepSolverError("Penalty parameter too large for the step size")
 
         b2t = fact * b2
 
